@@ -107,6 +107,13 @@ ClassShift(st, n) == IF n.uid = st.uid THEN 64 ELSE IF InGroup(st, n.gid) THEN 8
 May(st, id, bit) == IsAdmin(st) \/ ((st.ino[id].mode \div ClassShift(st, st.ino[id])) \div bit) % 2 = 1
 MayWX(st, id) == May(st, id, 2) /\ May(st, id, 1)
 IsOwner(st, id) == IsAdmin(st) \/ st.ino[id].uid = st.uid
+\* a caller without CAP_FSETID who changes the content of a regular file (write, truncate, O_TRUNC) takes its
+\* set-uid bit away, and its set-gid bit when the group may execute the file or when the caller is neither in the
+\* file's group nor privileged (file_remove_privs / ATTR_KILL_S*ID, setattr_should_drop_sgid)
+KilledMode(st, n) ==
+    AndNot(n.mode, 2048 + (IF And(n.mode, 1024) # 0 /\ (And(n.mode, 8) # 0 \/ (~IsAdmin(st) /\ ~InGroup(st, n.gid))) THEN 1024 ELSE 0))
+KillPriv(st, id) ==
+    IF IsAdmin(st) \/ st.ino[id].k # "file" THEN st ELSE [st EXCEPT !.ino[id].mode = KilledMode(st, st.ino[id])]
 
 \* sticky directory: only the owner of the entry or of the directory may remove/rename it
 StickyDenies(st, dir, victim) ==
@@ -294,7 +301,7 @@ OpenCoreF(st, c, followExcl, bud) ==
     ELSE IF WantsRead(c) /\ ~May(st, r.id, 4) THEN F("EACCES")
     ELSE IF (WantsWrite(c) \/ HasFlag(c, "TRUNC")) /\ ~May(st, r.id, 2) THEN F("EACCES")
     ELSE [res |-> R0,
-          st |-> IF HasFlag(c, "TRUNC") THEN [st EXCEPT !.ino[r.id].data = <<>>] ELSE st,
+          st |-> IF HasFlag(c, "TRUNC") THEN KillPriv([st EXCEPT !.ino[r.id].data = <<>>], r.id) ELSE st,
           id |-> r.id]
 
 OpenCore(st, c) == OpenCoreF(st, c, FALSE, st.lb)
@@ -313,7 +320,7 @@ Create(st, c) == OpenClose(st, [c EXCEPT !.flag = CreateFlags, !.perm = 438])
 WriteFile(st, c) ==
     LET o == OpenCore(st, [c EXCEPT !.flag = <<"WRONLY", "CREATE", "TRUNC">>]) IN
     IF o.id = 0 THEN [res |-> o.res, st |-> o.st]
-    ELSE Ok([o.st EXCEPT !.ino[o.id].data = c.data])
+    ELSE Ok(IF c.data = <<>> THEN [o.st EXCEPT !.ino[o.id].data = c.data] ELSE KillPriv([o.st EXCEPT !.ino[o.id].data = c.data], o.id))
 
 TmpName(k) == "~" \o ToString(k)
 
@@ -356,22 +363,23 @@ SubtreeR(st, frontier, seen) ==
          SubtreeR(st, nxt \ seen, seen \cup nxt)
 Subtree(st, id) == SubtreeR(st, {id}, {id})
 
-\* os.RemoveAll as the administrator sees it: the subtree disappears.
-\* For other users it removes what it may (see RemoveAllUser).
+\* os.RemoveAll, step by step as package os does it (removeall_at.go): unlinkat first; when that is refused with
+\* EISDIR, EPERM or EACCES the entry may be a directory that must be emptied: it is opened for reading, every child
+\* is removed the same way, then rmdir is tried; the first error met below wins over the error of the final rmdir,
+\* and a successful rmdir wins over everything.  For the administrator the subtree simply disappears.
+UnlinkErr(st, dir, id) ==      \* unlinkat(dir, name, 0)
+    IF ~MayWX(st, dir) THEN "EACCES" ELSE IF StickyDenies(st, dir, id) THEN "EPERM" ELSE IF IsDir(st, id) THEN "EISDIR" ELSE "ok"
+RmdirErr(st, dir, id) ==       \* unlinkat(dir, name, AT_REMOVEDIR) of a directory
+    IF ~MayWX(st, dir) THEN "EACCES" ELSE IF StickyDenies(st, dir, id) THEN "EPERM"
+    ELSE IF DOMAIN st.ino[id].ent # {} THEN "ENOTEMPTY" ELSE "ok"
 RECURSIVE RemoveTree(_, _, _, _)
 \* removes entry name of directory dir as far as permissions allow; returns [err, st]
 RemoveTree(st, dir, name, fuel) ==
-    LET id == st.ino[dir].ent[name] IN
-    IF ~IsDir(st, id) \/ DOMAIN st.ino[id].ent = {} \/ fuel = 0 THEN
-        \* unlinkat / rmdir of a leaf
-        IF ~MayWX(st, dir) THEN [err |-> "EACCES", st |-> st]
-        ELSE IF StickyDenies(st, dir, id) THEN [err |-> "EPERM", st |-> st]
-        ELSE [err |-> "ok", st |-> DelEntry(st, dir, name)]
+    LET id == st.ino[dir].ent[name]
+        u == UnlinkErr(st, dir, id) IN
+    IF u = "ok" THEN [err |-> "ok", st |-> DelEntry(st, dir, name)]
+    ELSE IF ~IsDir(st, id) \/ fuel = 0 THEN [err |-> u, st |-> st]
     ELSE
-        \* a non-empty directory: it must be opened and read, then emptied, then removed
-        IF ~MayWX(st, dir) THEN [err |-> "EACCES", st |-> st]
-        ELSE IF ~May(st, id, 4) THEN [err |-> "EACCES", st |-> st]
-        ELSE
         LET names == DOMAIN st.ino[id].ent
             RECURSIVE Each(_, _, _)
             Each(s, todo, firstErr) ==
@@ -379,10 +387,12 @@ RemoveTree(st, dir, name, fuel) ==
                 ELSE LET n == CHOOSE x \in todo : TRUE
                          o == RemoveTree(s, id, n, fuel - 1) IN
                      Each(o.st, todo \ {n}, IF firstErr = "ok" THEN o.err ELSE firstErr)
-            inner == Each(st, names, "ok") IN
-        IF inner.err # "ok" THEN inner
-        ELSE IF StickyDenies(inner.st, dir, id) THEN [err |-> "EPERM", st |-> inner.st]
-        ELSE [err |-> "ok", st |-> DelEntry(inner.st, dir, name)]
+            inner == IF ~May(st, id, 4) THEN [err |-> "EACCES", st |-> st]      \* the directory cannot be opened for reading
+                     ELSE Each(st, names, "ok")
+            last == RmdirErr(inner.st, dir, id) IN
+        IF last = "ok" THEN [err |-> "ok", st |-> DelEntry(inner.st, dir, name)]
+        ELSE IF inner.err # "ok" THEN inner
+        ELSE [err |-> last, st |-> inner.st]
 
 EndsWithDot(p) == p.parts # <<>> /\ Last(p.parts) = "."
 
@@ -393,18 +403,36 @@ RemoveAll(st, c) ==
     LET r == Res(st, c.p, FALSE)
         lk == LastKind(c.p) IN
     IF r.err = "ENOENT" THEN Ok(st)
-    ELSE IF r.err # "ok" THEN Fail(r.err, st)
+    ELSE IF r.err # "ok" THEN
+        \* Remove(path) failed for another reason: package os opens the parent directory of the path for reading
+        \* (whatever it is) before trying again through it; a missing parent means there is nothing to remove
+        LET pp == [abs |-> c.p.abs, parts |-> IF c.p.parts = <<>> THEN <<>> ELSE Front(c.p.parts)]
+            rp == Res(st, pp, TRUE) IN
+        IF c.p.parts = <<>> THEN Fail(r.err, st)
+        ELSE IF rp.err = "ENOENT" \/ (rp.err = "ok" /\ rp.id = 0) THEN Ok(st)
+        ELSE IF rp.err # "ok" THEN Fail(rp.err, st)
+        ELSE IF ~May(st, rp.id, 4) THEN Fail("EACCES", st)
+        ELSE Fail(r.err, st)
     ELSE IF r.id = 0 THEN Ok(st)
     ELSE IF lk = "root" THEN
-        \* everything below the root goes, then the root itself refuses
-        LET RECURSIVE Each(_, _)
-            Each(s, todo) == IF todo = {} THEN s
-                             ELSE LET n == CHOOSE x \in todo : TRUE IN
-                                  Each(RemoveTree(s, Root, n, 8).st, todo \ {n}) IN
-        Fail("EBUSY", Gc(Each(st, DOMAIN st.ino[Root].ent)))
+        \* everything below the root goes as far as the caller may, then the root itself refuses; the first
+        \* error met below wins over the final EBUSY
+        LET RECURSIVE Each(_, _, _)
+            Each(s, todo, fe) == IF todo = {} THEN [err |-> fe, st |-> s]
+                                 ELSE LET n == CHOOSE x \in todo : TRUE
+                                          o == RemoveTree(s, Root, n, 8) IN
+                                      Each(o.st, todo \ {n}, IF fe = "ok" THEN o.err ELSE fe)
+            inner == IF ~May(st, Root, 4) THEN [err |-> "EACCES", st |-> st] ELSE Each(st, DOMAIN st.ino[Root].ent, "ok") IN
+        Fail(IF inner.err = "ok" THEN "EBUSY" ELSE inner.err, Gc(inner.st))
     ELSE IF lk = "dotdot" THEN Fail("ENOTEMPTY", st)
-    ELSE LET o == RemoveTree(st, Last(r.par), r.name, 8) IN
-         IF o.err = "ok" THEN Ok(Gc(o.st)) ELSE Fail(o.err, Gc(o.st))
+    ELSE LET par == Last(r.par)
+             \* Remove(path) first: unlink, or rmdir for a directory
+             first == IF IsDir(st, r.id) THEN RmdirErr(st, par, r.id) ELSE UnlinkErr(st, par, r.id) IN
+         IF first = "ok" THEN Ok(Gc(DelEntry(st, par, r.name)))
+         \* then the parent directory is opened for reading and the entry removed through it
+         ELSE IF ~May(st, par, 4) THEN Fail("EACCES", st)
+         ELSE LET o == RemoveTree(st, par, r.name, 8) IN
+              IF o.err = "ok" THEN Ok(Gc(o.st)) ELSE Fail(o.err, Gc(o.st))
 
 SamePath(p, q) == p = q
 
@@ -445,6 +473,13 @@ Rename(st, c) ==
     ELSE Ok(Gc(AddEntry(DelEntry(st, od, ro0.name), nd, rn0.name, src)))
 
 \* linkat(2) without AT_SYMLINK_FOLLOW
+HardlinkAllowed(st, id) ==
+    \/ IsOwner(st, id)
+    \/ /\ IsFile(st, id)
+       /\ ~HasBit(st.ino[id].mode, SETUID)
+       /\ ~(HasBit(st.ino[id].mode, SETGID) /\ HasBit(st.ino[id].mode, 8))
+       /\ May(st, id, 4) /\ May(st, id, 2)
+
 Link(st, c) ==
     LET ro == Res(st, c.p, FALSE)
         rn == Res(st, c.q, FALSE) IN
@@ -452,6 +487,9 @@ Link(st, c) ==
     ELSE IF ro.id = 0 THEN Fail("ENOENT", st)
     ELSE IF rn.err # "ok" THEN Fail(rn.err, st)
     ELSE IF rn.id # 0 \/ LastKind(c.q) # "norm" THEN Fail("EEXIST", st)
+    \* fs.protected_hardlinks = 1 (the kernel default): who does not own the source may only link a regular file
+    \* without set-uid / set-gid+group-exec bits that he may both read and write (may_linkat, before the directory check)
+    ELSE IF ~HardlinkAllowed(st, ro.id) THEN Fail("EPERM", st)
     ELSE IF ~MayWX(st, Last(rn.par)) THEN Fail("EACCES", st)
     ELSE IF IsDir(st, ro.id) THEN Fail("EPERM", st)
     ELSE Ok(AddEntry(st, Last(rn.par), rn.name, ro.id))
@@ -477,7 +515,7 @@ Truncate(st, c) ==
     ELSE IF r.id = 0 THEN Fail("ENOENT", st)
     ELSE IF IsDir(st, r.id) THEN Fail("EISDIR", st)
     ELSE IF ~May(st, r.id, 2) THEN Fail("EACCES", st)
-    ELSE Ok([st EXCEPT !.ino[r.id].data = Resize(@, c.n)])
+    ELSE Ok(KillPriv([st EXCEPT !.ino[r.id].data = Resize(@, c.n)], r.id))
 
 Chmod(st, c) ==
     LET r == Res(st, c.p, TRUE) IN
@@ -502,11 +540,11 @@ ChownCore(st, c, follow) ==
         allowed == \/ IsAdmin(st)
                    \/ /\ nd.uid = st.uid
                       /\ (c.uid = -1 \/ c.uid = nd.uid)
-                      /\ (c.gid = -1 \/ InGroup(st, c.gid))
-                   \/ (c.uid = -1 /\ c.gid = -1)
+                      /\ (c.gid = -1 \/ c.gid = nd.gid \/ InGroup(st, c.gid))
+                   \* nothing to change: allowed to anybody - unless there are set-id bits to take away, which needs ownership
+                   \/ (c.uid = -1 /\ c.gid = -1 /\ (nd.k = "dir" \/ KilledMode(st, nd) = nd.mode))
         \* set-uid/set-gid bits of non-directories are dropped by every chown, even chown(-1, -1)
-        m == IF nd.k = "dir" THEN nd.mode
-             ELSE AndNot(nd.mode, SETUID + (IF HasBit(nd.mode, 8) THEN SETGID ELSE 0)) IN
+        m == IF nd.k = "dir" THEN nd.mode ELSE KilledMode(st, nd) IN
     IF ~allowed THEN Fail("EPERM", st)
     ELSE Ok([st EXCEPT !.ino[r.id].uid = nu, !.ino[r.id].gid = ng, !.ino[r.id].mode = m])
 
